@@ -296,6 +296,17 @@ class C08:
                 jl.append("jsondec %s %s" % (kind, tb(j.encode())))
             for _ in range(20 if tier == "quick" else 200):
                 jl.append("jsondec %s %s" % (kind, tb(bytes(rng.choice(b'{}[]",:0123456789abcdefAe_ \\nulltrue') for _ in range(rng.randrange(1, 120))))))
+        # update_signature with n = usize::MAX - 1 (n + 1 generators = usize::MAX: a loop bound written count + 1 overflows): the call may take time
+        # proportional to n (it is cut off after 3 s), it may not panic
+        old_to = S.timeout; S.timeout = 3
+        ru = S.run(["update %s %s %s %s %s 0 %d" % (suite, tb(sk), tb(f["sig"]), tb(f["msgs"][0]), tb(b"new"), 2**64 - 2)], label="fe:update-n-max-minus-1", model=False)
+        S.timeout = old_to
+        if ru and ru[0].status == "PANIC": P.fail(S, "update-n-max-minus-1", "update_signature panics for n = usize::MAX - 1", ["update ... 0 %d" % (2**64 - 2)])
+        # the scheme-generic API types (enums over the schemes): whatever serde accepts for them, their verification entry points return
+        for kind in ("sig", "proof", "blindsig", "commit"):
+            for j in ['{"_Unreachable":null}', '{"_Unreachable":[]}', '{"BBSplus":null}', '{"CL03":null}', '{"CL03":{}}', '"_Unreachable"', '"BBSplus"', '{}', 'null',
+                      '{"BBSplus":{"A":"%s","e":"%s"}}' % ("00" * 48, "00" * 32), '{"BBSplus":{"commitment":"%s","proof":{"s_cap":"%s","m_cap":[],"challenge":"%s"}}}' % ("c0" + "00" * 47, "00" * 32, "00" * 32)]:
+                jl.append("jsonapi %s %s" % (kind, tb(j.encode())))
         stats["json_cases"] = len(jl)
         S.run(jl, expect="nopanic", label="json", model=False)
         return stats
@@ -331,6 +342,16 @@ class C09:
             for (k, v), r in zip(objs, res):
                 stats["roundtrips"] += 1
                 if r.status == "OK" and r.b(0) != v: P.fail(S, "roundtrip", "decode(encode(x)) re-encodes differently", [k, v.hex()])
+            # the decoders EMBEDDED in operations: proof_gen / blind_proof_gen take the signature as octets -- exactly 80, no trailing octets, no prefix of a longer string
+            f0_ = flows[0]; el_ = []
+            for junk_ in (b"\0", b"\1" * 32, f0_["sig"]):
+                el_.append("proofgen %s %s %s %s N %s %s" % (suite, tb(f0_["pk"]), tb(f0_["sig"] + junk_), tob(f0_["header"]), tl(f0_["msgs"]), ti([0])))
+            el_.append("proofgen %s %s %s %s N %s %s" % (suite, tb(f0_["pk"]), tb(f0_["sig"][:79]), tob(f0_["header"]), tl(f0_["msgs"]), ti([0])))
+            if bfl:
+                b0_ = bfl[0]
+                for junk_ in (b"\0", b"\1" * 32):
+                    el_.append("blindproofgen %s %s %s %s N %s %s I I %s" % (suite, tb(b0_["pk"]), tb(b0_["sig"] + junk_), tob(b0_["header"]), tl(b0_["msgs"]), tol(b0_["cm"]), tob(b0_.get("blind"))))
+            S.run(el_, expect="err", label="embedded-signature-decoder")
             jl = [(k, v) for k, v in objs if k in ("pk", "sk", "sig", "proof", "commit")]
             res = S.run(["json %s %s" % (k, tb(v)) for k, v in jl], expect="ok", label="json-roundtrip")
             for (k, v), r in zip(jl, res):
@@ -604,6 +625,14 @@ class C10:
                 for k_ in (1, 2):
                     at = pyc.g1_plus_torsion(f["sig"][:48], k_)
                     if at: dl += ["verify %s %s %s %s %s" % (suite, tb(f["pk"]), tb(at + f["sig"][48:]), tob(f["header"]), tl(f["msgs"])), "dec sig %s" % tb(at + f["sig"][48:])]
+            bfl_ = P.blind_flows(S, suite, keys, [(3, 2, b"h")])
+            for bp_ in P.blind_proofs(S, [(b_, [0], [1], b"p") for b_ in bfl_]):
+                dl.append(P.bpv_line(bp_))
+                Lt_ = len(bp_["msgs"]) + 1 + len(bp_["cm"])
+                for bad_ in (Lt_, Lt_ + 1, 7, 2**32):
+                    dl.append(P.bpv_line(bp_, D=[0, bad_], dmsgs=[bp_["msgs"][0], b"x"]))          # out-of-range SIGNER index, a committed message disclosed
+                    dl.append(P.bpv_line(bp_, D=[bad_], dmsgs=[b"x"]))
+                dl.append(P.bpv_line(bp_, Dc=[1, 9], dcmsgs=[bp_["cm"][1], b"x"]))
             nsh = 2 if tier == "quick" else 50
             base = None
             for k in range(nsh):
